@@ -254,6 +254,97 @@ def doFluxErr (m : List (String × String)) : Option (List String) := do
                               bmaj := ← parseDim (← look m "a"), bmin := ← parseDim (← look m "b") }
   some [ s!"outcome {outcomeName (Flux.outcome inp md out)}", "end" ]
 
+
+/-! ## plot / hub / eq / identify -/
+
+def parseKeyTable (s : String) : Option (List (Nat × Int)) :=
+  if s == "-" || s == "" then some [] else
+  (s.splitOn ",").mapM fun e =>
+    match e.splitOn ":" with
+    | [a, b] => do pure ((← a.toNat?), (← b.toInt?))
+    | _ => none
+
+def doPlot (s : Sess) (m : List (String × String)) : Option (List String) := do
+  let tbl ← parseKeyTable (← look m "key")
+  let rev := (look m "rev").getD "0" == "1"
+  let key : Nat → Int := fun i => ((tbl.find? (fun kv => kv.1 == i)).map (·.2)).getD 0
+  let order := Plot.leafOrder key rev s.forest
+  let posLines := (nodes s.forest).map fun t => s!"pos {t.id} {showRat (Plot.pos order t)}"
+  let segs := Plot.linesL s.val order none s.forest
+  let segLines := segs.map fun g => s!"seg {g.sid} {showRat g.x0} {g.y0} {showRat g.x1} {g.y1}"
+  some ([s!"leaforder {joinNat order}"] ++ posLines ++ segLines ++ ["end"])
+
+def parseOptNatList (s : String) : Option (List (Option Nat)) :=
+  if s == "-" || s == "" then some [] else
+  (s.splitOn ",").mapM fun w => if w == "none" then some none else w.toNat?.map some
+
+/-- events `cb` | `click.slot.label` | `lasso.slot.r1+r2` | `sel.slot.sub.id1+id2` separated by `;` -/
+def doHub (s : Sess) (m : List (String × String)) : Option (List String) := do
+  let evs := ((look m "ev").getD "").splitOn ";"
+  let rowIds ← parseNatList ((look m "rows").getD "-")
+  let h ← evs.foldlM (fun (h : Hub) e =>
+    match e.splitOn "." with
+    | ["cb"] => some h.addCallback
+    | ["click", slot, lab] => do
+      let sl ← slot.toNat?
+      let l ← if lab == "none" then some none else lab.toNat?.map some
+      pure (h.click sl l)
+    | ["lasso", slot, rows] => do
+      let sl ← slot.toNat?
+      let rs ← if rows == "" || rows == "-" then some [] else (rows.splitOn "+").mapM String.toNat?
+      pure (h.lasso sl rowIds rs)
+    | ["sel", slot, sub, ids] => do
+      let sl ← slot.toNat?
+      let is ← (ids.splitOn "+").mapM (fun w => if w == "none" then some none else w.toNat?.map some)
+      pure (h.select sl is (sub == "1"))
+    | [""] => some h
+    | _ => none) ({} : Hub)
+  let slotLines := h.sels.map fun (slot, sel) =>
+    s!"slot {slot} sub={if sel.subtree then 1 else 0} hl={joinNat (sortNat (Hub.highlighted s.forest sel))} mask={joinNat (Hub.maskPixels s.forest sel)} rows={joinNat (sortNat (Hub.scatterRows s.forest rowIds sel))} label={Hub.labelText sel}"
+  some (slotLines ++ [s!"log {";".intercalate (h.log.map fun (c, sl) => s!"{c}.{sl}")}", "end"])
+
+def parseDView (s : String) : Option DView :=
+  match s.splitOn "@" with
+  | [shape, data, minv, mind, minn, lmap] => do
+    let sh ← parseNatList shape
+    let d ← parseVals data
+    let (mn, md) ← match minv.splitOn "/" with
+      | [a, b] => do pure ((← a.toInt?), (← b.toNat?))
+      | _ => none
+    let lm ← if lmap == "-" then some [] else (lmap.splitOn ",").mapM fun w => if w == "-1" then some none else w.toNat?.map some
+    pure { shape := sh, data := d, minv := (mn, md), mind := ← mind.toInt?, minn := ← minn.toInt?, lmap := lm }
+  | _ => none
+
+def doEq (m : List (String × String)) : Option (List String) := do
+  let a ← parseDView (← look m "a")
+  let b ← parseDView (← look m "b")
+  let b2i (x : Bool) : Nat := if x then 1 else 0
+  some [ s!"eqd {b2i (DView.eqD a b)}", s!"eqspec {b2i (DView.eqSpec a b)}", s!"eqintended {b2i (DView.eqIntended a b)}",
+         s!"eqd_rev {b2i (DView.eqD b a)}", "end" ]
+
+def hexToNats (s : String) : Option (List Nat) :=
+  if s == "-" then some [] else
+  let cs := s.toList
+  let rec go : List Char → Option (List Nat)
+    | [] => some []
+    | [_] => none
+    | a :: b :: rest => do
+      let d (c : Char) : Option Nat :=
+        if c.isDigit then some (c.toNat - '0'.toNat)
+        else if 'a' ≤ c ∧ c ≤ 'f' then some (c.toNat - 'a'.toNat + 10) else none
+      let r ← go rest
+      pure (((← d a) * 16 + (← d b)) :: r)
+  go cs
+
+def doIdentify (m : List (String × String)) : Option (List String) := do
+  let nameBytes ← hexToNats (← look m "name")
+  let name := nameBytes.map Char.ofNat
+  let read := (← look m "read") == "1"
+  let headS ← look m "head"
+  let head ← if headS == "none" then some none else (hexToNats headS).map some
+  let r := Identify.identify name read head
+  some [ s!"format {match r with | some .fits => "fits" | some .hdf5 => "hdf5" | none => "none"}", "end" ]
+
 def simple (s : Sess) (r : Option (List String)) (name : String) : Sess × List String :=
   match r with
   | some out => (s, out)
@@ -285,6 +376,10 @@ def handle (s : Sess) (line : String) : Sess × List String :=
   | "wrap" :: rest => simple s (doWrap (kvs rest)) "wrap"
   | "flux" :: rest => simple s (doFlux (kvs rest)) "flux"
   | "fluxerr" :: rest => simple s (doFluxErr (kvs rest)) "fluxerr"
+  | "plot" :: rest => simple s (doPlot s (kvs rest)) "plot"
+  | "hub" :: rest => simple s (doHub s (kvs rest)) "hub"
+  | "eq" :: rest => simple s (doEq (kvs rest)) "eq"
+  | "identify" :: rest => simple s (doIdentify (kvs rest)) "identify"
   | ["newick", txt] =>
     (s, [ "impl " ++ ntreeLine (parseImpl txt), "descent " ++ ntreeLine (parseDescent txt), "end" ])
   | _ => (s, ["bad-op unknown", "end"])
